@@ -115,3 +115,34 @@ def accepts(L, key, w):
         key = strip_na(key)
         w = strip_na(w)
     return key == w or (L["has_prefix"] and len(key) >= 4 and w.startswith(key))
+
+
+# ---- the stand-in KDF of harness/oracle.c (so that generators know the mask)
+M64 = (1 << 64) - 1
+
+
+def _mix(h, v):
+    h ^= (v + 0x9e3779b97f4a7c15 + ((h << 6) & M64) + (h >> 2)) & M64
+    h = (h * 0xff51afd7ed558ccd) & M64
+    h ^= h >> 33
+    return h
+
+
+def oracle_kdf(pw, salt, iterations, keylen):
+    h = 0x243f6a8885a308d3
+    h = _mix(h, len(pw))
+    for b in pw:
+        h = _mix(h, b)
+    h = _mix(h, len(salt))
+    for b in salt:
+        h = _mix(h, b)
+    h = _mix(h, iterations)
+    h = _mix(h, keylen)
+    out = []
+    for i in range(keylen):
+        h = _mix(h, i)
+        out.append((h >> 24) & 255)
+    return bytes(out)
+
+
+MASK_SALT = b"POLYSEED mask\x00\xff\xff"
